@@ -592,8 +592,8 @@ def extracted_oracle(parent, rec):
 # network that holds its parent's Node objects; a caller may also fill a second Network() with nodes of the first.
 # case: {"kind": "fam", "n": n, "ids": "int"|"str", "ops": [[k, op], ...]}; op = a session op on member k (minus `v`),
 #   ["c"] Network() (member k = number of members so far) · ["x", s, cut, obj] members.append(members[k].sub_network(s, cut))
-#   ["W", eid, w] edge.weight = w on the Edge object of that id (k = a member holding it; an extract holds its parent's Edge
-#   objects, so every member holding the edge sees the new weight). Edge ids are unique in a family: an id names one object.
+#   ["W", eid, w] members[k].getEdge(eid).weight = w (k = a member holding the edge; as the library is, an extract holds its parent's
+#   Edge objects, so every member holding the edge sees the new weight — the oracle does not rely on that). Edge ids are unique in a family.
 # ---------------------------------------------------------------------------------------------------
 def fam_members(case):
     """replays the generator's view of a family: per member its edges and known nodes (an extract's content is predicted
@@ -751,7 +751,6 @@ class SessRunner:
         self.net = Network() if net is None else net      # `net`: a Network the library returned (sub_network)
         self.mine = {} if mine is None else mine          # the Node objects handed to addNode / addEdge (`mine` given: a pool shared with other networks)
         self.ud = {}            # the caller's dictionary
-        self.epool = {}         # the Edge objects handed to addEdge, by id (impl_fam: one pool for the family)
         self.pos = pos          # node id -> [x, y] (default: (v, 0))
         self.lab = (lambda v: None if v is None else "n%d" % v) if strs else (lambda v: v)
         self.unlab = (lambda x: int(x[1:])) if strs else (lambda x: x)
@@ -789,10 +788,7 @@ class SessRunner:
             e = Edge(op[1], Track())
             e.orientation = op[5]
             e.weight = nc.pynum(op[4])
-            self.epool[op[1]] = e
             net.addEdge(e, self.node(op[2]), self.node(op[3])); r = "ok"
-        elif k == "W":
-            self.epool[op[1]].weight = nc.pynum(op[2]); r = "ok"      # the caller's own Edge object
         elif k == "m":
             net.setRoutingMethod(op[1]); r = "ok"
         elif k == "w":
@@ -1253,17 +1249,19 @@ class P(Prop):
         """several Network objects on one pool of Node objects; a network returned by sub_network is kept and used"""
         res = []
         with nc.time_limit(10):
-            runs, pool, epool = [], {}, {}
+            runs, pool = [], {}
             strs = case.get("ids", "int") == "str"
             for k, op in case["ops"]:
                 if op[0] == "c":
                     runs.append(SessRunner(self.mods, strs, mine=pool))
-                    runs[-1].epool = epool
                     res.append("ok")
                     continue
                 if op[0] == "W":
-                    epool[op[1]].weight = nc.pynum(op[2])
-                    res.append("ok")
+                    # through the network's own accessor: `members[k].getEdge(eid).weight = w`; then what every member holding an
+                    # edge of that id now carries (whether an extract shares its parent's Edge objects is the library's business)
+                    if k < len(runs) and runs[k].net.hasEdge(op[1]):
+                        runs[k].net.getEdge(op[1]).weight = nc.pynum(op[2])
+                    res.append(["w", [[j, dtok(x.net.getEdge(op[1]).weight)] for j, x in enumerate(runs) if x.net.hasEdge(op[1])]])
                     continue
                 if k >= len(runs):        # a member that does not exist (an extraction before it was not made): as the model, `err`
                     res += ["err"] + ([["t", []]] if has_dump(op) else [])
@@ -1272,7 +1270,6 @@ class P(Prop):
                 res += out
                 if op[0] == "x" and out[0] != "err":
                     runs.append(SessRunner(self.mods, strs, net=runs[k].extracted, mine=pool))
-                    runs[-1].epool = epool
         return {"res": res}
 
     def impl_float(self, case):
@@ -1544,6 +1541,17 @@ class P(Prop):
         if case["kind"] in ("sess", "world", "fworld", "fam") and "res" in impl_out and isinstance(model_out, dict) and "res" in model_out:
             # the searches on the returned sub-network are not part of the one-object model (checked by spec_sess)
             impl_out = {"res": [r[:3] if isinstance(r, list) and r and r[0] == "s" else r for r in impl_out["res"]]}
+        if case["kind"] == "fam" and "res" in impl_out:
+            # `edge.weight = w`: the model (one Edge object per id, shared by a network and its extracts) answers `ok`;
+            # so does the implementation when every network holding an edge of that id now carries w
+            ws = iter([nc.tok(nc.num(op[2])) for _, op in case["ops"] if op[0] == "W"])
+            res = []
+            for r in impl_out["res"]:
+                if isinstance(r, list) and r and r[0] == "w":
+                    w = next(ws, None)
+                    r = "ok" if all(x[1] == w for x in r[1]) else r
+                res.append(r)
+            impl_out = {"res": res}
         return Prop.compare(self, case, impl_out, model_out)
 
     # ---------------------------------------------------------------- oracle
@@ -1694,15 +1702,23 @@ class P(Prop):
                 pos += 1
                 continue
             if op[0] == "W":
-                if pos >= len(res) or res[pos] != "ok":
-                    return "%s: %s" % (what, res[pos] if pos < len(res) else "no result")
+                rec = res[pos] if pos < len(res) else None
+                if not (isinstance(rec, list) and rec and rec[0] == "w"):
+                    return "%s: %s" % (what, rec if rec is not None else "no result")
                 pos += 1
-                for o in orcs:      # the Edge object is the same in every network that holds it
+                # network k's own edge now weighs w; any other network is judged on the weight ITS edge of that id carries
+                # (read back from the object: the statement does not say whether an extract shares its parent's Edge objects)
+                seen = dict((j, w) for j, w in rec[1])
+                for j, o in enumerate(orcs):
                     hit = [e for e in o.edges if e[0] == op[1]]
+                    if not hit:
+                        continue
+                    neww = op[2] if j == k else seen.get(j)
+                    if neww is None or neww == "none":
+                        continue
                     for e in hit:
-                        e[3] = op[2]
-                    if hit:
-                        o.ver += 1; o.fw = None
+                        e[3] = neww
+                    o.ver += 1; o.fw = None
                 continue
             if k >= len(orcs):      # a member that was never created (the extraction before it was not made): nothing to judge
                 pos += 2 if has_dump(op) else 1
